@@ -1,6 +1,6 @@
 # list of harness binaries (name[-variant]); see Makefile
 HARNESSES := h_numbers h_wto h_patricia h_scalar h_wrapint h_fwd-interval h_hist-interval
-HARNESSES += h_hist-sdbm h_hist-soct h_hist-ric h_hist-term_int h_hist-bool_int h_fwd-sdbm h_fwd-soct h_fwd-ric h_fwd-term_int h_fwd-bool_int
+HARNESSES += h_hist-pack_sdbm h_hist-sdbm h_hist-soct h_hist-ric h_hist-term_int h_hist-bool_int h_fwd-sdbm h_fwd-soct h_fwd-ric h_fwd-term_int h_fwd-bool_int
 HARNESSES += h_fixpo_exact
 HARNESSES += h_histg-interval h_histg-sdbm h_histg-bool_int
 HARNESSES += h_exact-itv h_exact-sdbm h_exact-dbm h_exact-soct h_exact-lift
